@@ -341,7 +341,7 @@ def r4(run, db):
                         inner = f.origins(r["stmt"]["rv"]["ops"][0])
                         ok = ok or all(x["k"] == "call" and x["call"].callee.endswith("::init") for x in inner)
                 run.check(ok, "auth-init:%s" % f.id.split("::")[-2], "a new session starts with init()", "session state constructed with a non-initial auth state", f.where(s.get("l")))
-    run.anchor("auth field writes", n, 3)
+    run.anchor("auth field writes", n, 2)      # the session constructor and at least one transition site (several may be merged)
     ha = [f for f in db.crate_fns(RC) if re.search(r"NodeSession::handle_auth::\{closure#0\}$", f.id)]
     for f in ha:
         g = [c for c in f.calls() if c.callee and c.callee.endswith("AuthenticationState::is_ok")]
